@@ -34,8 +34,8 @@ IMPORTS = ("From Coq Require Import QArith Uint63.\n"
            "From V Require Import Model.Resample Model.ResampleRun Model.TempAgg Model.TempAggRun.\n"
            "Open Scope uint63_scope.")
 CASE_TYPE = {
-    "hourly": "bool * option int * list int * list reading * tobs",
-    "subhourly": "bool * bool * list reading * list Z * int * list (qv * qv * qv)",
+    "hourly": "bool * bool * option int * list int * list frow * tobs",
+    "subhourly": "bool * bool * bool * list frow * list Z * int * list (qv * qv * qv)",
     "asfreqinst": "list reading * list Z * int * list (qv * qv)",
 }
 CHECK_FN = {"hourly": "check_hourly", "subhourly": "check_subhourly", "asfreqinst": "check_asfreq_inst"}
@@ -102,6 +102,15 @@ def nan_patterns(rng, slots, b, t0, step, per_day_classes=True):
     return names
 
 
+def gen_temps(rng, n):
+    """quarter degrees.  40 % of the feeds are whole-degree winter feeds oscillating around 0 F: a reading of exactly
+    0.0 F is a PRESENT reading (for electricity and gas alike); the others span -20.00 .. 110.00 F"""
+    if rng.random() < 0.4:
+        base = rng.choice([-2, 0, 0, 1, 3])
+        return [4 * (base + rng.choice([-3, -2, -1, -1, 0, 0, 0, 1, 1, 2, 3])) for _ in range(n)]
+    return [rng.randrange(-80, 441) for _ in range(n)]
+
+
 def gen_frame(rng, k, step):
     """an hourly (step 60) or sub-hourly (30 / 15) frame of temperatures with a meter column"""
     z = rng.choice(ZONES)
@@ -114,7 +123,7 @@ def gen_frame(rng, k, step):
     e = perl - 1 if rng.random() < 0.7 else rng.randrange(0, perl)
     t_end = b[nd - 1] + e * step
     n = (t_end - t0) // step + 1
-    temps = [rng.randrange(-80, 441) for _ in range(n)]          # quarter degrees: -20.00 .. 110.00 F
+    temps = gen_temps(rng, n)
     pats = nan_patterns(rng, temps, b, t0, step)
     if sum(v is not None for v in temps) < 3:
         return gen_frame(rng, k, step)
@@ -130,7 +139,8 @@ def gen_frame(rng, k, step):
     klass = rng.choice(["baseline", "baseline", "reporting"])
     return {"kind": "frame", "zone": z, "step": step, "t0": t0, "temps": temps, "meter": meter, "meter_hour": mh,
             "skip_days": skip_days, "how": how, "klass": klass, "feed_zone": rng.choice(FIXED), "patterns": pats,
-            "on_dst": on_dst, "bounds": b}
+            "on_dst": on_dst, "bounds": b, "elec": rng.random() < 0.5,
+            "zero_usage": sorted(rng.sample(range(n), min(n, rng.choice([0, 0, 1, 3, 8]))))}
 
 
 def gen_billing_temp(rng, k):
@@ -149,11 +159,12 @@ def gen_billing_temp(rng, k):
     b = [tzdays.day_start(days[0] + dt.timedelta(days=i), z) for i in range(nd + 1)]
     t0, t_end = b[0], b[nd] - 60
     n = (t_end - t0) // 60 + 1
-    temps = [rng.randrange(-80, 441) for _ in range(n)]
+    temps = gen_temps(rng, n)
     pats = nan_patterns(rng, temps, b, t0, 60)
     reads = [tzdays.day_start(d, z) for d in days]
     return {"kind": "billing", "zone": z, "step": 60, "t0": t0, "temps": temps, "reads": reads,
-            "bills": [rng.randrange(200, 2000) for _ in range(nper)], "patterns": pats, "bounds": b}
+            "bills": [rng.randrange(200, 2000) for _ in range(nper)], "patterns": pats, "bounds": b,
+            "elec": rng.random() < 0.5}
 
 
 # =====================================================================================================
@@ -183,6 +194,8 @@ def build_inputs(cs):
     b = cs["bounds"]
     if cs["meter"] == "subdaily":
         obs = pd.Series(1.0 + (np.arange(len(ts)) % 7), index=idx, name="observed")
+        for i in cs.get("zero_usage", []):
+            obs.iloc[i] = 0.0           # a usage of exactly 0: missing for electricity, a reading for gas
     else:
         obs = pd.Series(np.nan, index=idx, name="observed")
         pos = {t: i for i, t in enumerate(ts)}
@@ -194,7 +207,7 @@ def build_inputs(cs):
             while t in pos and tzdays.local_minute_of_day(t, z) != cs["meter_hour"] * 60 and t < b[di + 1]:
                 t += 60
             if t in pos and t < b[di + 1]:
-                obs.iloc[pos[t]] = 20.0 + di
+                obs.iloc[pos[t]] = 0.0 if (di % 5 == 3 and cs.get("zero_usage")) else 20.0 + di
     if cs["how"] == "df":
         return pd.DataFrame({"observed": obs, "temperature": temp})
     meter = obs.dropna() if cs["meter"] != "subdaily" else obs
@@ -222,12 +235,13 @@ def run_class(cs):
         def _check_data_sufficiency(self, sufficiency_df):
             Capture.suff = sufficiency_df.copy()
             return super()._check_data_sufficiency(sufficiency_df)
+    elec = bool(cs.get("elec", False))
     inp = build_inputs(cs)          # outside the try: a mistake of the harness must crash, not look like a class error
     try:
         if isinstance(inp, tuple):
-            d = Capture.from_series(inp[0], inp[1], is_electricity_data=False)
+            d = Capture.from_series(inp[0], inp[1], is_electricity_data=elec)
         else:
-            d = Capture(inp, is_electricity_data=False)
+            d = Capture(inp, is_electricity_data=elec)
         out = d.df
     except Exception as e:  # noqa
         import traceback
@@ -244,6 +258,7 @@ def run_class(cs):
     return {
         "frame_freq": freq,
         "frame": list(zip(minutes_of(fin.index), [fr(x) for x in fin["temperature"].to_numpy()])),
+        "frame_obs": [fr(x) for x in fin["observed"].to_numpy()] if "observed" in fin.columns else [None] * len(fin),
         "midx": minutes_of(out.index),
         "temperature": [fr(x) for x in out["temperature"].to_numpy()],
         "not_null": [fr(x) for x in suff["temperature_not_null"].to_numpy()],
@@ -423,6 +438,12 @@ def short_obs(obs):
             "null": [None if v is None else float(v) for v in obs["null"][:40]]}
 
 
+def coq_frame(obs):
+    """the frame handed to the constructor, both columns: (frm [(stamp, observed, temperature); ...])"""
+    return "(frm %s)" % coq_list(["(%s, %s, %s)" % (ilit(t), qvlit(o), qvlit(v))
+                                  for (t, v), o in zip(obs["frame"], obs["frame_obs"])])
+
+
 def coq_rows(obs):
     return coq_list(["(%s, %s, %s)" % (qvlit(m), qvlit(a), qvlit(b))
                      for m, a, b in zip(obs["temperature"], obs["not_null"], obs["null"])])
@@ -432,7 +453,10 @@ def process_case(run, cs, flags):
     z = cs["zone"]
     key = vlib.sha(cs)
     billing = cs["kind"] == "billing"
+    elec = bool(cs.get("elec", False))
     obs = run_class(cs)
+    run.dist("fuel", "electricity" if elec else "gas")
+    run.dist("exact_zero_temperatures", min(3, sum(1 for v in cs["temps"] if v == 0)))
     run.dist("zone", z)
     run.dist("step", cs["step"])
     for p in cs["patterns"] or ["none"]:
@@ -451,8 +475,9 @@ def process_case(run, cs, flags):
             pres = sum(v is not None for v in cs["temps"])
             if pres and cs["step"] == 60:
                 stamps = frame_stamps(cs)
-                run.add("hourly", "(%s, None, %s, %s, OAllNaN)" % (
-                    coq_bool(billing), coq_list([]), coq_readings(list(zip(stamps, tvals(cs))))),
+                run.add("hourly", "(%s, %s, None, %s, (frm %s), OAllNaN)" % (
+                    coq_bool(elec), coq_bool(billing), coq_list([]),
+                    coq_list(["(%s, QN, %s)" % (ilit(t), qvlit(v)) for t, v in zip(stamps, tvals(cs))])),
                     {"case": cs, "impl": obs})
             return
         if not obs.get("in_temperature_code"):
@@ -474,11 +499,11 @@ def process_case(run, cs, flags):
         fails = oracle_hourly(cs, obs, billing)
         for sig, msg in fails:
             run.violation(sig, "C09 " + msg, case=cs, observation=short_obs(obs), generator=gen)
-        run.add("hourly", "(%s, None, %s, %s, (ORows %s))" % (
-            coq_bool(billing), coq_list([ilit(t) for t in obs["midx"]]), coq_readings(frame), coq_rows(obs)),
+        run.add("hourly", "(%s, %s, None, %s, %s, (ORows %s))" % (
+            coq_bool(elec), coq_bool(billing), coq_list([ilit(t) for t in obs["midx"]]), coq_frame(obs), coq_rows(obs)),
             {"case": cs, "impl": short_obs(obs),
-             "model_term": "hourly_path %s None (map zi %s) %s" % (
-                 coq_bool(billing), coq_list([ilit(t) for t in obs["midx"]]), coq_readings(frame))})
+             "model_term": "class_hourly %s %s None (map zi %s) %s" % (
+                 coq_bool(elec), coq_bool(billing), coq_list([ilit(t) for t in obs["midx"]]), coq_frame(obs))})
         run.sample({"stream": "hourly", "zone": z, "meter": cs.get("meter", "billing"), "how": cs.get("how", "df"),
                     "patterns": cs["patterns"], "days": len(obs["midx"]),
                     "first_days": [None if v is None else float(v) for v in obs["temperature"][:4]]})
@@ -495,11 +520,12 @@ def process_case(run, cs, flags):
                           "C09 sub-hourly feed: data.df rows are not the consecutive local days of the temperature feed",
                           case=cs, observation=short_obs(obs), generator=gen)
         else:
-            run.add("subhourly", "(%s, %s, %s, %s, %s, %s)" % (
-                coq_bool(flags["scale"]), coq_bool(flags["exact"]), coq_readings(frame), coq_zs(bs), ilit(first), coq_rows(obs)),
+            run.add("subhourly", "(%s, %s, %s, %s, %s, %s, %s)" % (
+                coq_bool(elec), coq_bool(flags["scale"]), coq_bool(flags["exact"]), coq_frame(obs), coq_zs(bs), ilit(first),
+                coq_rows(obs)),
                 {"case": cs, "impl": short_obs(obs),
-                 "model_term": "subhourly_path %s %s %s %s" % (coq_bool(flags["scale"]), coq_bool(flags["exact"]),
-                                                              coq_readings(frame), coq_zs(bs))})
+                 "model_term": "class_subhourly %s %s %s %s %s" % (coq_bool(elec), coq_bool(flags["scale"]),
+                                                                 coq_bool(flags["exact"]), coq_frame(obs), coq_zs(bs))})
         # as_freq instantaneous on the feed itself
         rs = [(t, v) for t, v in frame]
         o2 = impl_asfreq_inst(rs, z)
@@ -554,6 +580,22 @@ def witness_billing_short_day():
             "reads": [tzdays.day_start(d, z) for d in days], "bills": [300, 310], "patterns": ["half"], "bounds": b}
 
 
+def witness_zero_fahrenheit(how):
+    """America/Chicago, electricity, daily meter, whole-degree hourly feed -3..3 F (exact zeros every day); on the third
+    day 13 of 24 readings are present, two of them 0.0 F: the zeros are readings (mean over 13, counts 13 / 11)"""
+    z = "America/Chicago"
+    b = [tzdays.day_start(dt.date(2024, 1, 8) + dt.timedelta(days=i), z) for i in range(7)]
+    n = (b[6] - b[0]) // 60
+    temps = [4 * ((i * 5) % 7 - 3) for i in range(n)]
+    for i in range(48, 48 + 24):
+        temps[i] = None
+    for i, v in zip(range(48, 48 + 13), [0, 4, -8, 0, 12, 8, -4, 4, 8, -12, 4, 8, -4]):
+        temps[i] = v
+    return {"kind": "frame", "zone": z, "step": 60, "t0": b[0], "temps": temps, "meter": "daily0", "meter_hour": 0,
+            "skip_days": [], "how": how, "klass": "baseline", "feed_zone": "UTC", "patterns": ["half"], "on_dst": False,
+            "bounds": b, "elec": True, "zero_usage": []}
+
+
 def probe():
     """scale: is the sub-hourly mean divided by its coverage (code as it is) or not (repaired)?
     exact: are the sub-hourly counts per-day counts (repaired) or the flag of the day-start reading (code as it is)?"""
@@ -594,7 +636,8 @@ N_BILL = (24, 250)
 def main():
     run = Run("C09")
     run.cov["rule"] = (
-        "frames of hourly / 30-minute / 15-minute temperatures (quarter degrees, -20..110 F) over 3-12 local days around a "
+        "frames of hourly / 30-minute / 15-minute temperatures (quarter degrees, -20..110 F; 40 % whole-degree winter feeds "
+        "around 0 F with exact 0.0 readings) for electricity and gas meters (usage with exact zeros) over 3-12 local days around a "
         "DST change (75 %) in 13 zones (incl. :30/:45 offsets), starting at local midnight or at another slot, NaN patterns: "
         "whole day, exactly half of the day's readings +-1 (23/24/25-hour days), a quarter, runs across midnight, random 10-70 %, "
         "leading / trailing; meter column sub-daily, daily at local midnight, or daily at another hour (06:00 / 18:00 / 01:00: "
@@ -636,7 +679,8 @@ def main():
         corpus = os.path.join(vlib.VERIF, "corpus", "C09.json")
         if os.path.exists(corpus):
             cases += json.load(open(corpus))
-        cases += [witness_case(), witness_last_day_dst(), witness_billing_short_day()]
+        cases += [witness_case(), witness_last_day_dst(), witness_billing_short_day(),
+                  witness_zero_fahrenheit("df"), witness_zero_fahrenheit("series-offset")]
         for k in range(nn(N_HOURLY)):
             cases.append(gen_frame(run.rng, k, 60))
         for k in range(nn(N_SUB)):
